@@ -7,6 +7,8 @@
 (***************************************************************************)
 EXTENDS Cli, Json, IOUtils, TLC, TLCExt
 
+Df == INSTANCE Diff
+
 Rec == ndJsonDeserialize(IOEnv.TRACE)
 VARIABLE l
 tvars == <<l, phase, sc, code, written, dispatched, nrecv, exited>>
@@ -74,6 +76,35 @@ StdinFails(s, fin) ==
   (IF fin.created # <<>> \/ fin.deleted # <<>> THEN {"file_created"} ELSE {}) \cup
   (IF \E o \in SeqToSet(fin.files) : ~o.same_bytes \/ ~o.same_mtime THEN {"file_modified"} ELSE {})
 
+(* C18: the printed diff reconstructs the formatted file; nothing is printed iff the file is already formatted *)
+DiffFails(s, fin) ==
+  LET d == fin.diff IN
+  IF ~d.have_new THEN {}
+  ELSE
+   (IF s.fmt = "unified"
+    THEN (IF d.same # (d.hunks = <<>>) THEN {"printed_iff_differs"} ELSE {}) \cup
+         (IF ~d.same /\ ~Df!UnifiedConsistent(d.old, d.hunks) THEN {"unified_context_mismatch"} ELSE {}) \cup
+         (IF ~d.same /\ Df!ApplyUnified(d.old, d.hunks) # d.new THEN {"unified_does_not_reconstruct"} ELSE {})
+    ELSE {}) \cup
+   (IF s.fmt = "json"
+    THEN (IF d.same # (d.mismatches = <<>>) THEN {"printed_iff_differs"} ELSE {}) \cup
+         (IF ~d.same /\ Df!ApplyJson(d.old, d.mismatches) # d.new THEN {"json_does_not_reconstruct"} ELSE {}) \cup
+         (IF ~d.same /\ ~Df!JsonRangesConsistent(d.mismatches) THEN {"json_range_inconsistent"} ELSE {})
+    ELSE {}) \cup
+   (IF s.fmt \in {"summary", "standard"}
+    THEN (IF d.same # (fin.n_diffs = 0) THEN {"printed_iff_differs"} ELSE {})
+    ELSE {}) \cup
+   (IF fin.exit # (IF d.same THEN 0 ELSE 1) THEN {"exit"} ELSE {})
+
+(* C20: every carrier of an option value gives the library's output for that configuration;
+        a malformed configuration file is rejected with exit status 2 and nothing is modified *)
+CarrierFails(s, fin) ==
+  IF s.c.kind = "carrier"
+  THEN (IF fin.exit # 0 THEN {"exit"} ELSE {}) \cup
+       UNION { IF o.tag = "probe" /\ "fmt" \notin SeqToSet(o.matches) THEN {"carrier_output_differs"} ELSE {} : o \in SeqToSet(fin.files) }
+  ELSE (IF fin.exit # 2 THEN {"malformed_not_rejected"} ELSE {}) \cup
+       (IF \E o \in SeqToSet(fin.files) : ~o.same_bytes THEN {"malformed_but_file_modified"} ELSE {})
+
 TraceFinal ==
   /\ Next1 /\ E.ev = "Final" /\ Final
   /\ CASE Kind(sc) = "files" ->
@@ -82,6 +113,8 @@ TraceFinal ==
        [] Kind(sc) = "config" -> Report(E, {V("C15", w) : w \in ConfigFails(sc, E)})
        [] Kind(sc) = "stdin" -> Report(E, {V("C17", w) : w \in StdinFails(sc, E)} \cup
                                           (IF written # <<>> THEN {V("C17", "fs_write")} ELSE {}))
+       [] Kind(sc) = "diff" -> Report(E, {V("C18", w) : w \in DiffFails(sc, E)})
+       [] Kind(sc) = "carrier" -> Report(E, {V("C20", w) : w \in CarrierFails(sc, E)})
        [] Kind(sc) = "select" -> Report(E, {V("C16", w) : w \in SelectFails(sc, E, dispatched)})
        [] OTHER -> TRUE
 
